@@ -8,7 +8,8 @@ From Coq Require Import Reals Lra Psatz Bool ZArith Lia.
 Open Scope R_scope.
 
 Ltac ops := cbn [ROps Ops.T Ops.add Ops.sub Ops.mul Ops.div Ops.neg Ops.sqrt Ops.ofZ Ops.ofQ Ops.ltb Ops.leb Ops.eqb Ops.is_int
-                 Ops.exp_ Ops.log_ Ops.norm_cdf Ops.norm_pdf Ops.norm_ppf Ops.poisson_pmf Ops.poisson_cdf Ops.poisson_ppf Ops.gss] in *;
+                 Ops.exp_ Ops.log_ Ops.norm_cdf Ops.norm_pdf Ops.norm_ppf Ops.poisson_pmf Ops.poisson_cdf Ops.poisson_ppf Ops.gss
+                 Ops.pow_ Ops.powi Ops.lib] in *;
             cbv zeta in *.
 Ltac guards H :=
   repeat (match type of H with
@@ -296,12 +297,12 @@ Definition eoqd_approx_cost (K h p lam a b y : R) : R :=
   (K + h * (y * y) / (2 * lam) + p * lam * eoqd_psi a b / b) / (y / lam + eoqd_psi a b / b).
 Definition eoqd_approx_Q (K h p lam a b : R) : R :=
   (sqrt (eoqd_psi a b * lam * h * (eoqd_psi a b * lam * h) + 2 * h * b * (K * lam * b + lam * lam * p * eoqd_psi a b)) - eoqd_psi a b * lam * h) / (h * b).
-Lemma eoqd_opt_inv (K h p lam a b Q c : R) : eoq_with_disruptions RO K h p lam a b true = Some (Q, c) ->
+Lemma eoqd_opt_inv (K h p lam a b Q c : R) : eoq_with_disruptions__approximate_True RO K h p lam a b = Some (Q, c) ->
   0 <= K /\ 0 < h /\ 0 < p /\ 0 <= lam /\ 0 < a /\ 0 < b /\ Q = eoqd_approx_Q K h p lam a b /\ c = h * Q.
-Proof. unfold eoq_with_disruptions, eoqd_approx_Q, eoqd_psi; ops. intros H. guards H. injection H as HQ Hc. subst. repeat split; lra. Qed.
+Proof. unfold eoq_with_disruptions__approximate_True, eoqd_approx_Q, eoqd_psi; ops. intros H. guards H. injection H as HQ Hc. subst. repeat split; lra. Qed.
 Lemma eoqd_opt_def (K h p lam a b : R) : 0 <= K -> 0 < h -> 0 < p -> 0 <= lam -> 0 < a -> 0 < b ->
-  eoq_with_disruptions RO K h p lam a b true = Some (eoqd_approx_Q K h p lam a b, h * eoqd_approx_Q K h p lam a b).
-Proof. intros. unfold eoq_with_disruptions, eoqd_approx_Q, eoqd_psi; ops. goal_guards. reflexivity. Qed.
+  eoq_with_disruptions__approximate_True RO K h p lam a b = Some (eoqd_approx_Q K h p lam a b, h * eoqd_approx_Q K h p lam a b).
+Proof. intros. unfold eoq_with_disruptions__approximate_True, eoqd_approx_Q, eoqd_psi; ops. goal_guards. reflexivity. Qed.
 Lemma eoqd_eval_inv (K h p lam a b y c : R) : eoq_with_disruptions_cost RO y K h p lam a b true = Some c ->
   0 <= K /\ 0 < h /\ 0 < p /\ 0 <= lam /\ 0 < a /\ 0 < b /\ 0 < y /\ c = eoqd_approx_cost K h p lam a b y.
 Proof. unfold eoq_with_disruptions_cost, eoqd_approx_cost, eoqd_psi; ops. intros H. guards H. injection H as Hc. subst. repeat split; lra. Qed.
@@ -338,7 +339,7 @@ Proof.
     apply (Rmult_eq_reg_l (h * b)); [exact E3 | lra].
 Qed.
 Theorem eoqd_approx_coherent (K h p lam a b Q c : R) : 0 < lam ->
-  eoq_with_disruptions RO K h p lam a b true = Some (Q, c) ->
+  eoq_with_disruptions__approximate_True RO K h p lam a b = Some (Q, c) ->
   eoq_with_disruptions_cost RO Q K h p lam a b true = Some c.
 Proof.
   intros Hl H. apply eoqd_opt_inv in H. destruct H as (H1 & H2 & H3 & _ & H5 & H6 & HQ & Hc).
@@ -354,7 +355,7 @@ Proof.
   lra.
 Qed.
 Theorem eoqd_approx_optimal (K h p lam a b Q c y cy : R) : 0 < lam ->
-  eoq_with_disruptions RO K h p lam a b true = Some (Q, c) ->
+  eoq_with_disruptions__approximate_True RO K h p lam a b = Some (Q, c) ->
   eoq_with_disruptions_cost RO y K h p lam a b true = Some cy -> c <= cy.
 Proof.
   intros Hl H E. apply eoqd_opt_inv in H. destruct H as (H1 & H2 & H3 & _ & H5 & H6 & HQ & Hc).
@@ -376,19 +377,6 @@ Proof.
   lra.
 Qed.
 
-(* exact model: the decision comes from golden_section_search (an oracle field); coherence needs only that the
-   search returns its own evaluation of the objective at the point it returns *)
-Theorem eoqd_exact_coherent (K h p lam a b Q c : R) :
-  (forall f lo hi x fx, o_gss o f lo hi = Some (x, fx) -> f x = Some fx) ->
-  eoq_with_disruptions RO K h p lam a b false = Some (Q, c) ->
-  eoq_with_disruptions_cost RO Q K h p lam a b false = Some c.
-Proof.
-  intros Hg H. unfold eoq_with_disruptions in H; ops. guards H.
-  match type of H with context[o_gss o ?f ?lo ?hi] => destruct (o_gss o f lo hi) as [[x fx]|] eqn:G; [|discriminate H] end.
-  injection H as Hx Hc. subst x fx. apply Hg in G.
-  destruct (eoq_with_disruptions_cost (ROps o) Q K h p lam a b false) as [v|] eqn:E; [|discriminate G].
-  exact G.
-Qed.
 (* non-vacuity instance (Snyder & Shen example 3.1) *)
 Lemma eoq_example : exists Q c, 0 < Q /\ 0 < c /\
   economic_order_quantity RO 8 (9 / 40) 1300 None = Some (Q, c) /\
